@@ -156,6 +156,45 @@ fn oracle_ok(ctx: &mut Ctx, input: &str, c: &AisleConf) {
         }
     };
     ctx.case(format!("aisle_rt{} {}", sfx(), enc_text(input)), rt_reply, !c.categories.is_empty(), desc.clone());
+
+    // the calls `write` makes on its destination (model: Side/AisleSink.lean, theorem C11_write_sink): a destination that
+    // accepts at most `n` bytes per call and `cap` bytes in all (a pipe, a socket, `&mut [u8]`) — what it holds afterwards
+    // and whether `write` returned Ok or Err(WriteZero)
+    if sfx().is_empty() {
+        struct Lim { out: Vec<u8>, n: usize, cap: usize }
+        impl std::io::Write for Lim {
+            fn write(&mut self, b: &[u8]) -> std::io::Result<usize> {
+                let k = b.len().min(self.n).min(self.cap.saturating_sub(self.out.len()));
+                self.out.extend_from_slice(&b[..k]);
+                Ok(k)
+            }
+            fn flush(&mut self) -> std::io::Result<()> { Ok(()) }
+        }
+        let full_len = { let mut b = Vec::new(); let _ = aisle::write(c, &mut b); b.len() };
+        let h = crate::util::hash64(input) as usize;
+        // (per call, capacity): roomy with short writes; exactly full; one byte short; a small slice
+        let shapes = [(1 + h % 4, full_len + 8), (1 + h % 7, full_len), (2 + h % 3, full_len.saturating_sub(1)), (64, (h / 7) % (full_len + 1))];
+        for (n, cap) in shapes {
+            let mut lim = Lim { out: Vec::new(), n, cap };
+            let reply = match guarded(|| aisle::write(c, &mut lim).map_err(|e| e.kind())) {
+                Err(p) => { ctx.oracle_fail(desc.clone(), format!("write into a limited destination panics: {p}"), psig(&p)); "panic".to_string() }
+                Ok(r) => {
+                    let bytes = if lim.out.is_empty() { "-".to_string() } else { lim.out.iter().map(|b| b.to_string()).collect::<Vec<_>>().join(",") };
+                    match r {
+                        Ok(()) => {
+                            // oracle: success is only reported for the complete text
+                            if lim.out.len() != full_len { ctx.oracle_fail(desc.clone(), format!("write reports Ok although the destination ({n} byte(s) per call, room {cap}) received {} of {full_len} bytes", lim.out.len()), "c11:write_truncated".into()); }
+                            ctx.count("sink:ok");
+                            format!("ok {bytes}")
+                        }
+                        Err(std::io::ErrorKind::WriteZero) => { ctx.count("sink:write-zero"); format!("werr {bytes}") }
+                        Err(k) => format!("ioerr {k:?} {bytes}"),
+                    }
+                }
+            };
+            ctx.case(format!("aisle_sink {} {} {}", enc_text(input), n, cap), reply, full_len > 0, format!("{desc}, destination {n} byte(s)/call, room {cap}"));
+        }
+    }
 }
 
 /// lookup oracle + correspondence
